@@ -4,6 +4,7 @@ import (
 	"os"
 	"path/filepath"
 	"sync/atomic"
+	"syscall"
 
 	"bytes"
 	"encoding/json"
@@ -34,15 +35,17 @@ type Cut struct {
 }
 
 type CutRec struct {
-	Ev    string   `json:"ev"`
-	ID    int      `json:"id"`
-	Judge string   `json:"judge"`
-	Log   bool     `json:"log"` // a Logger is configured (SMF.Logger for writes, smf.Log for reads): must not change any result
-	Bytes hx.B     `json:"bytes"`
-	Base  R        `json:"base"`
-	Cuts  []Cut    `json:"cuts"`
-	Full  bool     `json:"full"`
-	Feat  []string `json:"feat"`
+	Ev     string   `json:"ev"`
+	ID     int      `json:"id"`
+	Judge  string   `json:"judge"`
+	Log    bool     `json:"log"` // a Logger is configured (SMF.Logger for writes, smf.Log for reads): must not change any result
+	Bytes  hx.B     `json:"bytes"`
+	Base   R        `json:"base"`
+	Cuts   []Cut    `json:"cuts"`
+	Tr     string   `json:"tr"` // the whole file and two of its prefixes through the track-level entry points (see AnyRec): the worst outcome
+	TrFile string   `json:"trfile"`
+	Full   bool     `json:"full"`
+	Feat   []string `json:"feat"`
 }
 
 func isPrefix(a, b []REvent) bool {
@@ -95,25 +98,41 @@ func runCut(rec *CutRec) {
 		}
 		rec.Cuts = append(rec.Cuts, c)
 	}
+	rec.Tr, rec.TrFile = "ok", "ok"
+	for _, k := range []int{len(rec.Bytes), len(rec.Bytes) / 2, len(rec.Bytes) - 1} {
+		if k < 0 {
+			continue
+		}
+		m, f := tracksProbe(rec.Bytes[:k])
+		if rec.Tr == "ok" || rec.Tr == "error" {
+			rec.Tr = m
+		}
+		if rec.TrFile == "ok" || rec.TrFile == "error" || rec.TrFile == "n/a" {
+			rec.TrFile = f
+		}
+	}
 }
 
 type AnyRec struct {
-	Ev    string `json:"ev"`
-	ID    int    `json:"id"`
-	Judge string `json:"judge"`
-	Bytes hx.B   `json:"bytes"`
-	Len   int    `json:"len"`
-	Kind  string `json:"kind"`
-	Alloc uint64 `json:"alloc"`
-	Ms    int64  `json:"ms"`
-	Msg   string `json:"msg"`
-	Src   string `json:"src"`
+	Ev     string `json:"ev"`
+	ID     int    `json:"id"`
+	Judge  string `json:"judge"`
+	Bytes  hx.B   `json:"bytes"`
+	Len    int    `json:"len"`
+	Kind   string `json:"kind"`
+	Alloc  uint64 `json:"alloc"`
+	Ms     int64  `json:"ms"`
+	Msg    string `json:"msg"`
+	Src    string `json:"src"`
+	Tr     string `json:"tr"`     // the same bytes through ReadTracksFrom(...).Do: ok | error | panic: .. | timeout
+	TrFile string `json:"trfile"` // and through ReadTracks(path).Do
 }
 
 func runAny(rec *AnyRec) {
 	rec.Ev = "any"
 	v, alloc, ms := readBytes(rec.Bytes)
 	rec.Len, rec.Kind, rec.Alloc, rec.Ms, rec.Msg = len(rec.Bytes), v.Kind, alloc, ms, v.Msg
+	rec.Tr, rec.TrFile = tracksProbe(rec.Bytes)
 }
 
 // ---- C09: delivery schedules ---------------------------------------------------------------------------
@@ -242,6 +261,27 @@ func runSched(rec *SchedRec) {
 				add("os.File", f)
 				f.Close()
 			}
+		}
+		// a named pipe: a path whose size says nothing about its content; the writer delivers the bytes in three pieces
+		fifo := filepath.Join(dir, "x.fifo")
+		if len(data) > 0 && syscall.Mkfifo(fifo, 0o600) == nil {
+			go func() {
+				f, err := os.OpenFile(fifo, os.O_WRONLY, 0)
+				if err != nil {
+					return
+				}
+				a, b := len(data)/3, 2*len(data)/3
+				f.Write(data[:a])
+				f.Write(data[a:b])
+				f.Write(data[b:])
+				f.Close()
+			}()
+			v, _, _ := readPath(fifo)
+			run := SchedRun{Sched: "ReadFile(fifo)", Same: sameResult(v, rec.Base), Val: noneR()}
+			if !run.Same {
+				run.Val = v
+			}
+			rec.Runs = append(rec.Runs, run)
 		}
 		os.RemoveAll(dir)
 	}
@@ -376,6 +416,8 @@ type WFaultRec struct {
 	OkErr  bool     `json:"okerr"` // the unfaulted write returned an error
 	OkSize int64    `json:"oksize"`
 	Faults []WFault `json:"faults"`
+	// the file-name entry point onto a destination that refuses every byte (a link to /dev/full): "err" | "nil" | "panic: .." | "n/a"
+	DevFull string `json:"devfull"`
 }
 
 func runWFault(rec *WFaultRec) {
@@ -385,6 +427,25 @@ func runWFault(rec *WFaultRec) {
 	n, err := s.WriteTo(&buf)
 	rec.Total, rec.OkErr, rec.OkSize = buf.Len(), err != nil, n
 	rec.Faults = []WFault{}
+	rec.DevFull = "n/a"
+	if _, serr := os.Stat("/dev/full"); serr == nil {
+		if dir, derr := os.MkdirTemp("", "verif_df"); derr == nil {
+			link := filepath.Join(dir, "full.mid") // (WriteFile removes the path on failure: only the link goes)
+			if os.Symlink("/dev/full", link) == nil {
+				var ferr error
+				pp := hx.Catch(func() { ferr = execHistory(rec.Hist).WriteFile(link) })
+				switch {
+				case pp != "":
+					rec.DevFull = "panic: " + pp
+				case ferr != nil:
+					rec.DevFull = "err"
+				default:
+					rec.DevFull = "nil"
+				}
+			}
+			os.RemoveAll(dir)
+		}
+	}
 	ks := []int{}
 	step := 1
 	if rec.Total > 400 {
@@ -508,7 +569,11 @@ func cmdSmfGen(args []string) {
 		feat := map[string]bool{}
 		switch *mode {
 		case "wr":
-			rec := &WrRec{ID: i, Judge: *judge, Hist: genHistory(r, *fulld, !*big || i%4 != 0, feat)}
+			rec := &WrRec{ID: i, Judge: *judge, Hist: genHistory(r, *fulld, !*big || i%4 != 0, feat), PriorFault: -1}
+			if r.Intn(4) == 0 {
+				rec.PriorFault = r.Intn(60)
+				feat["prior_failed_write"] = true
+			}
 			rec.Log = r.Intn(3) == 0
 			useLog = rec.Log
 			runWr(rec)
@@ -641,7 +706,7 @@ func exhaustiveHistories(depth int, judge string, w *hx.Writer) {
 						h[i].Msgs = []hx.B{}
 					}
 				}
-				rr := &WrRec{ID: 1000000 + id, Judge: judge, Hist: h, Feat: []string{"exhaustive_small"}}
+				rr := &WrRec{ID: 1000000 + id, Judge: judge, Hist: h, Feat: []string{"exhaustive_small"}, PriorFault: -1}
 				runWr(rr)
 				w.Put(rr)
 				id++
